@@ -24,6 +24,7 @@ Definition p_op : parser (N * ev) :=
   | 9 => let* c := pN in pret (dt, EOtherUp c)
   | 10 => let* c := pN in pret (dt, EOtherDown c)
   | 11 => let* n := pN in pret (dt, EBump n)
+  | 12 => let* c := pN in pret (dt, EShutSub c)
   | _ => pfail
   end.
 
@@ -40,7 +41,7 @@ Definition ev_small (e : ev) : bool :=
   | EEst p c | EClosed p c | ESubIn p c _ => small p && small c
   | ESubOut i _ | ESubFail i => small i
   | EDialFail p | EOpen p => small p
-  | EDropSub c | EOtherUp c | EOtherDown c => small c
+  | EDropSub c | EOtherUp c | EOtherDown c | EShutSub c => small c
   | EBump n => small n
   | ENone => true
   end.
